@@ -386,11 +386,14 @@ class MerchantEngine:
         evaluated = {}
         for name, expr in self.variables.items():
             try:
-                result = expr_parser.evaluate_transaction(expr, transaction, data_sources=data_sources)
+                # Variables are evaluated in file order and see the ones before them (like let:
+                # bindings and the variables of a views file): holiday_splurge = is_large and is_holiday
+                result = expr_parser.evaluate_transaction(
+                    expr, transaction, variables=evaluated, data_sources=data_sources
+                )
                 evaluated[name] = result
             except expr_parser.ExpressionError:
                 # If variable can't be evaluated, skip it
-                # (might depend on another variable not yet evaluated)
                 pass
         return evaluated
 
